@@ -87,11 +87,12 @@ class Ctx:
             tdir = os.path.join(BUILD, 'cargo' if not features else 'cargo-' + features.replace(',', '-'))
             if features: cmd += ['--features', features]
             if profile == 'release': cmd.append('--release')
+            elif profile != 'dev': cmd += ['--profile', profile]
             rc, out = sh(cmd, cwd=HARNESS, env={'CARGO_TARGET_DIR': tdir})
         self.notes.setdefault('build', []).append(' '.join(cmd))
         if rc != 0:
             return None, out
-        return os.path.join(tdir, 'release' if profile == 'release' else 'debug'), out
+        return os.path.join(tdir, 'debug' if profile == 'dev' else profile), out
 
     def build_model(self):
         """make the Coq development needed for extraction, extract, compile the OCaml driver (cached by mtime)."""
